@@ -219,7 +219,7 @@ func CheckC04(run *evid.Run) {
 			}
 		}
 		run.Eval(1)
-		if i < 2 {
+		if i < 2 || run.NumSamples() < 2 {
 			run.Sample(histSample(h))
 		}
 	})
@@ -539,7 +539,7 @@ func CheckC05(run *evid.Run) {
 		if tr.nontrivial() {
 			run.NonTrivial(model.ShapeDigest(U) + "/" + h.Codec)
 		}
-		if i < 2 {
+		if i < 2 || run.NumSamples() < 2 {
 			run.Sample(histSample(h))
 		}
 	})
